@@ -39,7 +39,7 @@ class Parameters:
         \newcommand{\aa}{å}
         \newcommand{\AE}{Æ}
         \newcommand{\ae}{æ}
-        \newcommand{\bibitem}[1]{\item}
+        \newcommand{\bibitem}[2][]{\item}
         \newcommand{\bibliographystyle}[1]{}
         \newcommand{\footnotemark}[1][]{}
         \newcommand{\hfill}{ }
@@ -119,10 +119,10 @@ class Parameters:
         self.environment_defs = [
 
         Environ(self, 'figure', args='O', add_pars=False),
-        Environ(self, 'minipage', args='A'),
+        Environ(self, 'minipage', args='OOOA'),
 #       Environ(self, 'table', repl='[Tabelle]', remove=True),
         Environ(self, 'table', args='O', add_pars=False),
-        Environ(self, 'tabular', args='A', add_pars=False),
+        Environ(self, 'tabular', args='OA', add_pars=False),
         Environ(self, 'thebibliography', args='A', add_pars=True),
         Environ(self, 'verbatim', remove=False, add_pars=True),
 
